@@ -46,6 +46,9 @@ type World struct {
 	activity int64
 
 	runDone chan error
+
+	// OnRunReturn, when set, is called in the goroutine that ran RT.Run immediately after it returned.
+	OnRunReturn func()
 }
 
 // WorldOptions configure a world.
@@ -89,7 +92,15 @@ func NewWorld(o WorldOptions) (*World, error) {
 func (w *World) Run() {
 	w.runDone = make(chan error, 1)
 
-	go func() { w.runDone <- w.RT.Run(w.Ctx) }()
+	go func() {
+		err := w.RT.Run(w.Ctx)
+
+		if w.OnRunReturn != nil {
+			w.OnRunReturn()
+		}
+
+		w.runDone <- err
+	}()
 }
 
 // RunResult returns (finished, error) of RT.Run without blocking.
